@@ -312,7 +312,7 @@ class SpatialM6(SpatialVector):
                             [ 0,     0,     0,      v[5],   0,    -v[3]   ],
                             [ 0,     0,     0,     -v[4],   v[3],   0     ]
                         ])
-        if isinstance(other, SpatialVelocity):
+        if isinstance(other, SpatialM6):
             return SpatialAcceleration(vcross @ other.A)  # x operator (crm)
         elif isinstance(other, SpatialF6):
             return SpatialForce(-vcross.T @ other.A)      # x* operator (crf)
